@@ -4,6 +4,7 @@ import (
 	"fmt"
 	"go/token"
 	"go/types"
+	"regexp"
 	"sort"
 	"strings"
 
@@ -103,6 +104,8 @@ type Exec struct {
 	recFuncs    map[string]*recFunc
 	symCache    map[string][]string
 	byCall      bool
+	stores      map[string]storeInfo
+	freshRefs   map[string]bool
 	nerr        int
 	inlineStack []*ssa.Function
 	pkgShort    string
@@ -168,8 +171,9 @@ func (x *Exec) obligeX(st *State, kind, name string, props []string, goal Term, 
 	}
 	o := &Obligation{Name: x.funcName() + "/" + name, Kind: kind, Props: props, Text: text, Path: x.paths, Func: x.funcName(), Pos: pos, Must: must, Cover: cover}
 	if !cover && goal.S != "true" {
+		gn := alphaNorm(goal.S)
 		for _, a := range st.pc {
-			if a.S == goal.S {
+			if a.S == goal.S || (len(a.S) == len(goal.S) || strings.Contains(a.S, "!q")) && alphaNorm(a.S) == gn {
 				goal = tTrue
 				break
 			}
@@ -825,6 +829,15 @@ func (x *Exec) binop(fr *Frame, st *State, op token.Token, a, b Val, opdType, re
 		switch op {
 		case token.ADD, token.SUB, token.MUL:
 			o := map[token.Token]string{token.ADD: "+", token.SUB: "-", token.MUL: "*"}[op]
+			if op == token.MUL {
+				_, la := litVal(ta)
+				_, lb := litVal(tb)
+				if !la && !lb {
+					// product of two unknowns: uninterpreted with the recurrence axioms (keeps queries linear)
+					o = "imul_"
+					x.note("products of two non-constant integers are axiomatised (commutative, a*0, a*(b+1), sign), not interpreted")
+				}
+			}
 			r := x.def(st, "i", app(sInt, o, ta, tb))
 			r = x.wrapInt(st, r, resType, fr, ins, op.String())
 			return Sc{r, resType}
@@ -1555,4 +1568,22 @@ type recFunc struct {
 type paramHeap struct {
 	sorts map[string]string
 	order []string
+}
+
+var qvarRe = regexp.MustCompile(`[A-Za-z_][A-Za-z0-9_]*!q[0-9]+`)
+
+// alphaNorm renames bound variables by order of appearance so that alpha-equivalent formulas compare equal.
+func alphaNorm(s string) string {
+	if !strings.Contains(s, "!q") {
+		return s
+	}
+	m := map[string]string{}
+	return qvarRe.ReplaceAllStringFunc(s, func(v string) string {
+		if r, ok := m[v]; ok {
+			return r
+		}
+		r := fmt.Sprintf("v!q#%d", len(m))
+		m[v] = r
+		return r
+	})
 }
